@@ -512,18 +512,22 @@ def run(ctx):
     ctx.extra.pop('a64_coverage', None)
     ctx.extra['aarch64_instruction_coverage'] = a64cov
     # higher layers: the tower and group-law workloads on every executable back end must be byte-identical
-    import c04
-    import c05
-    import c06
+    import importlib
     hl = ['prod', 'x86base', 'p64', 'p32']
     hexes = session.build_exes({c: (c if c != 'x86base' else 'prod', 'opdrv.cpp', ['--x86base'] if c == 'x86base' else []) for c in hl})
-    for mod in (c04, c05, c06):
-        sub = harness.Ctx(mod.__name__.upper(), ctx.tier, ctx.seed)
-        session.run_shards(sub, mod.worker, 16, hexes, {'cfgs': hl}, only=[0, 5, 10] if ctx.quick else None)
+    hl2 = ['prod', 'p64', 'p32']
+    layers = [(m, 'opdrv.cpp', hl, hexes, [0, 5, 10]) for m in ('c04', 'c05', 'c06')] + [(m, 'opdrv.cpp', hl, hexes, [0, 9]) for m in ('c01', 'c07', 'c08', 'c09', 'c10')]
+    wexes = session.build_exes({c: (c, 'wkd_drv.cpp', []) for c in hl2})
+    sexes = session.build_exes({c: (c, 'scheme_drv.cpp', []) for c in hl2})
+    layers += [(m, 'wkd_drv.cpp', hl2, wexes, [0, 9, 13]) for m in ('c11', 'c13', 'c14')] + [('c16', 'scheme_drv.cpp', hl2, sexes, [0, 5])]
+    for name, drv, cfgl, ex, only in layers:
+        mod = importlib.import_module(name)
+        sub = harness.Ctx(name.upper(), ctx.tier, ctx.seed)
+        session.run_shards(sub, mod.worker, 16, ex, {'cfgs': cfgl}, only=only if ctx.quick else (None if name in ('c04', 'c05', 'c06') else [0, 3, 6, 9, 12, 15]))
         for v in sub.violations:
-            if ':diff:' in v['key']:
+            if ':diff:' in v['key'] or ':san:' in v['key']:
                 ctx.violation('higher-layer:%s' % v['key'].split(':', 1)[1], v['what'], v['replay'])
-        ctx.event('higher-layer-differential:%s' % mod.__name__.upper(), 'prod/x86base/p64/p32', n=max(1, sub.extra.get('differential_lines_compared', 1)))
+        ctx.event('higher-layer-differential:%s' % name.upper(), '/'.join(cfgl), n=max(1, sub.extra.get('differential_lines_compared', 1)))
     ctx.extra['configurations_executed'] = ['x86-64 BMI2/ADX asm (dispatch + direct)', 'x86-64 baseline asm (dispatch pointers swapped + direct)', 'portable C++ 64-bit words', 'portable C++ 32-bit words',
                                             'AArch64 asm under oracle/a64.py', 'ARMv6-M asm under the source-level interpreter oracle/thumb.py (macro expansion + Thumb-1 semantics, three readings of low-register MOV)']
     ctx.extra['configurations_not_executed'] = []
@@ -535,7 +539,7 @@ def run(ctx):
     ctx.assumptions = ['Python integer arithmetic', 'oracle/a64.py implements the 15 instruction forms that occur (unit-tested on hand-computed flag cases); not silicon',
                        'oracle/thumb.py interprets the ARMv6-M *source text* (GNU-as macro expansion, Thumb-1 semantics of the 17 mnemonics that occur, flags set by low-register data processing); results must not depend on the one encoding that is ambiguous without the assembler']
     need = ['raw384.mred|vcmp=/', 'raw384.mred|vcmp</top64=', 'raw384.mred|vcmp>/top64=', 'raw384.fpadd|cmp=/top64=', 'raw384.add|carry1/chain6', 'raw384.sub|borrow1/chain6', 'raw256.mred|', 'raw384.fpmul|',
-            'higher-layer-differential:C04|', 'higher-layer-differential:C06|',
+            'higher-layer-differential:C04|', 'higher-layer-differential:C06|', 'higher-layer-differential:C01|', 'higher-layer-differential:C11|', 'higher-layer-differential:C16|', 'higher-layer-differential:C09|',
             'raw384.mred.carry-coincidence|w64/round0/P=2^w+0/meta0', 'raw384.mred.carry-coincidence|w64/round4/P=2^w+0/meta1', 'raw384.mred.carry-coincidence|w64/round3/P=2^w-1/meta1',
             'raw384.mred.carry-coincidence|w32/round9/P=2^w+0/meta1', 'raw256.mred.carry-coincidence|w64/round2/P=2^w-1/meta1', 'raw384.fpmul.carry-coincidence|w64/round4/P=2^w+0/meta1',
             'raw384.fpmul.carry-coincidence|w32/round10/P=2^w+0/meta1', 'raw256.fpmul.carry-coincidence|w64/round1/P=2^w+1/meta1']
